@@ -1924,4 +1924,60 @@ theorem fieldIdx_of_get (tbl : List OptionRow) (hnd : (tbl.map OptionRow.fieldNa
   exact this hc'
 
 
+
+section
+variable {DT : Type} (C : DTCodec DT)
+
+theorem fromString_drm_kind (k : Kind) (s : Bytes) (l : List (Bytes × LocSet))
+    (h : fromString C k s = .ok (.drm l)) : k = .drmSelection := by
+  cases k <;> simp only [fromString] at h
+  case bool => cases h
+  case intOrNone => obtain ⟨a, _, ha⟩ := exceptMap_ok _ _ _ h; cases a <;> cases ha
+  case floatOrNone =>
+    split at h
+    · cases h
+    · split at h <;> cases h
+  case strOrNone => split at h <;> cases h
+  case strRaw => cases h
+  case listJoin => cases h
+  case drmSelection => rfl
+  case quotedUrl => split at h <;> cases h
+  case astDateTime =>
+    split at h
+    · cases h
+    · obtain ⟨a, _, ha⟩ := exceptMap_ok _ _ _ h; cases a <;> cases ha
+  case dtOrNone =>
+    split at h
+    · cases h
+    · obtain ⟨a, _, ha⟩ := exceptMap_ok _ _ _ h; cases a <;> cases ha
+  case errorList =>
+    split at h
+    · cases h
+    · obtain ⟨a, _, ha⟩ := exceptMap_ok _ _ _ h; cases ha
+  case intOrDefault d => obtain ⟨a, _, ha⟩ := exceptMap_ok _ _ _ h; cases ha
+  case posIntOrDefault d =>
+    split at h
+    · cases h
+    · cases h
+    · split at h <;> cases h
+
+theorem globalDefault_ast_canonical (tbl : List OptionRow) (i : Nat) (r : OptionRow)
+    (hr : tbl[i]? = some r) (hk : r.kind = .astDateTime)
+    (hd : r.dflt ∈ ["now", "today", "month", "year", "epoch"]) :
+    Canonical r.kind (globalDefault C tbl i) := by
+  have hs : ascii r.dflt ∈ specialAst := by
+    simp only [List.mem_cons, List.mem_nil_iff, or_false] at hd
+    rcases hd with h | h | h | h | h <;> rw [h] <;> decide
+  have hc : specialAst.contains (ascii r.dflt) = true := by simpa using hs
+  have hdv : defaultVal C r = .ok (.str (ascii r.dflt)) := by
+    unfold defaultVal
+    rw [hk]
+    simp only [fromString, hc, if_true]
+  unfold globalDefault
+  rw [hr]
+  simp only [hdv, hk]
+  exact hs
+
+end
+
 end DashLive.Options
